@@ -292,6 +292,12 @@ func genC08(t *rapid.T) c08Case {
 			root.Body = append(root.Body, g.def(root.Path, b, 0))
 		}
 	}
+	if g.n(0, 3, "viaInclude") == 0 {
+		// the leaf is not executed directly but included by a host template: the same layout, the same blocks
+		g.labels["leaf-reached-through-include"] = true
+		g.p.Files = append(g.p.Files, &mj.File{Path: "/host/page.jet", Body: []*mj.Node{mj.Text("<host>"), {K: "include", E: mj.Str("/c0.jet")}, mj.Text("</host>")}})
+		g.p.Entry = "/host/page.jet"
+	}
 	c := c08Case{Prog: g.p}
 	src := mj.NewPrinter().Sources(g.p)
 	var paths []string
